@@ -159,7 +159,7 @@ static void plain(Rng& rng)
         for (size_t pi = 0; pi < pls.size(); ++pi)
         {
             const Place& pl = pls[pi];
-            for (int form = 0; form < 4; ++form)
+            for (int form = 0; form < 6; ++form)
             {
                 fill_src(src, N, rng, (int)(pi + form) % 3 == 1);
                 std::string wit = std::string("\"aligned\":") + (aligned ? "true" : "false") + ",\"form\":" + std::to_string(form) + ",\"placement\":\"" + pl.where + "\",\"offset_in_page\":" + std::to_string((uintptr_t)pl.p % 4096);
@@ -175,8 +175,9 @@ static void plain(Rng& rng)
                     bool ok = guarded(sl, wit, [&]
                                       {
                         const T* p = (const T*)pl.p;
-                        B b = aligned ? (form == 0 ? B::load_aligned(p) : form == 1 ? B::load(p, xs::aligned_mode {}) : form == 2 ? xs::load_aligned<ARCH>(p) : xs::load_as<T, ARCH>(p, xs::aligned_mode {}))
-                                      : (form == 0 ? B::load_unaligned(p) : form == 1 ? B::load(p, xs::unaligned_mode {}) : form == 2 ? xs::load_unaligned<ARCH>(p) : xs::load_as<T, ARCH>(p, xs::unaligned_mode {}));
+                        // forms 4/5: the free functions xsimd::load (tag argument; for aligned memory also the defaulted tag)
+                        B b = aligned ? (form == 0 ? B::load_aligned(p) : form == 1 ? B::load(p, xs::aligned_mode {}) : form == 2 ? xs::load_aligned<ARCH>(p) : form == 3 ? xs::load_as<T, ARCH>(p, xs::aligned_mode {}) : form == 4 ? xs::load<ARCH>(p, xs::aligned_mode {}) : xs::load<ARCH>(p))
+                                      : (form == 0 ? B::load_unaligned(p) : form == 1 ? B::load(p, xs::unaligned_mode {}) : form == 2 ? xs::load_unaligned<ARCH>(p) : form == 3 ? xs::load_as<T, ARCH>(p, xs::unaligned_mode {}) : xs::load<ARCH>(p, xs::unaligned_mode {}));
                         b.store_aligned(o); });
                     if (ok && memcmp(o, src, BY))
                         viol(sl, "lane_mismatch", "{" + wit + ",\"memory\":" + hexarr(src, N) + ",\"lanes\":" + hexarr(o, N) + "}");
@@ -201,14 +202,17 @@ static void plain(Rng& rng)
                             if (form == 0) b.store_aligned(p);
                             else if (form == 1) b.store(p, xs::aligned_mode {});
                             else if (form == 2) xs::store_aligned(p, b);
-                            else xs::store_as(p, b, xs::aligned_mode {});
+                            else if (form == 3) xs::store_as(p, b, xs::aligned_mode {});
+                            else if (form == 4) xs::store(p, b, xs::aligned_mode {});
+                            else xs::store(p, b);
                         }
                         else
                         {
                             if (form == 0) b.store_unaligned(p);
                             else if (form == 1) b.store(p, xs::unaligned_mode {});
                             else if (form == 2) xs::store_unaligned(p, b);
-                            else xs::store_as(p, b, xs::unaligned_mode {});
+                            else if (form == 3) xs::store_as(p, b, xs::unaligned_mode {});
+                            else xs::store(p, b, xs::unaligned_mode {});
                         } });
                     if (ok)
                     {
@@ -237,7 +241,7 @@ static void converting(Rng& rng)
 {
     using BL = xs::batch<Lane, ARCH>;
     constexpr size_t N = BL::size;
-    static_assert(xs::batch<Mem, ARCH>::size == N, "");
+    // the memory element type may be narrower or wider than the lane type: the range is always N elements of Mem
     constexpr size_t BY = N * sizeof(Mem);
     static OpStat& st = reg("C04", "load_as_store_as_converting", (std::string(tname<Mem>()) + "_mem_" + tname<Lane>() + "_lanes").c_str());
     if (!st.on)
@@ -251,7 +255,13 @@ static void converting(Rng& rng)
         for (const Place& pl : pls)
         {
             for (size_t i = 0; i < N; ++i)
-                src[i] = (Mem)(int)(rng.next() % 2001 - 1000);
+            {
+                // values representable in both types (the conversion of other values is C06's business)
+                const bool narrow = sizeof(Mem) == 1 || sizeof(Lane) == 1;
+                const bool sgn = std::is_signed<Mem>::value && std::is_signed<Lane>::value;
+                const int span = narrow ? 100 : 1000;
+                src[i] = sgn ? (Mem)((int)(rng.next() % (2 * span + 1)) - span) : (Mem)(int)(rng.next() % (span + 1));
+            }
             std::string wit = std::string("\"aligned\":") + (aligned ? "true" : "false") + ",\"placement\":\"" + pl.where + "\",\"offset_in_page\":" + std::to_string((uintptr_t)pl.p % 4096);
             if (!pl.heap)
                 AR.fill(0x5a);
@@ -304,11 +314,13 @@ static void bools(Rng& rng)
     for (int aligned = 0; aligned < 2; ++aligned)
     {
         auto pls = placements(N, aligned ? ARCH::alignment() : 1, heap);
-        for (const Place& pl : pls)
+        for (size_t pi = 0; pi < pls.size(); ++pi)
         {
+            const Place& pl = pls[pi];
+            const int form = (int)(pi & 1) ^ (int)(rng.next() & 1); // 0: batch_bool members, 1: xsimd::load_as / store_as with a bool pointer
             for (size_t i = 0; i < N; ++i)
                 bs[i] = rng.next() & 1;
-            std::string wit = std::string("\"aligned\":") + (aligned ? "true" : "false") + ",\"placement\":\"" + pl.where + "\",\"offset_in_page\":" + std::to_string((uintptr_t)pl.p % 4096) + ",\"bools\":" + hexarr(bs, N);
+            std::string wit = std::string("\"aligned\":") + (aligned ? "true" : "false") + ",\"placement\":\"" + pl.where + "\",\"offset_in_page\":" + std::to_string((uintptr_t)pl.p % 4096) + ",\"form\":" + std::to_string(form) + ",\"bools\":" + hexarr(bs, N);
             if (!pl.heap)
                 AR.fill(0x00); // canary must be a valid bool for the load side; 0 everywhere else
             memcpy(pl.p, bs, N);
@@ -318,7 +330,9 @@ static void bools(Rng& rng)
             bool got[N];
             bool ok = guarded(st, wit, [&]
                               {
-                BB m = aligned ? BB::load_aligned((const bool*)pl.p) : BB::load_unaligned((const bool*)pl.p);
+                const bool* bp = (const bool*)pl.p;
+                BB m = form == 0 ? (aligned ? BB::load_aligned(bp) : BB::load_unaligned(bp))
+                                 : (aligned ? xs::load_as<T, ARCH>(bp, xs::aligned_mode {}) : xs::load_as<T, ARCH>(bp, xs::unaligned_mode {}));
                 for (size_t i = 0; i < N; ++i) got[i] = m.get(i); });
             if (ok && memcmp(got, bs, N))
                 viol(st, "lane_mismatch", "{" + wit + ",\"got\":" + hexarr(got, N) + "}");
@@ -327,8 +341,17 @@ static void bools(Rng& rng)
             BB m = BB::load_unaligned(bs);
             ok = guarded(st, wit, [&]
                          {
-                if (aligned) m.store_aligned((bool*)pl.p);
-                else m.store_unaligned((bool*)pl.p); });
+                bool* bp = (bool*)pl.p;
+                if (form == 0)
+                {
+                    if (aligned) m.store_aligned(bp);
+                    else m.store_unaligned(bp);
+                }
+                else
+                {
+                    if (aligned) xs::store_as(bp, m, xs::aligned_mode {});
+                    else xs::store_as(bp, m, xs::unaligned_mode {});
+                } });
             if (ok)
             {
                 if (memcmp(pl.p, bs, N))
@@ -359,10 +382,12 @@ static void complexes(Rng& rng, const char* prop)
     for (int aligned = 0; aligned < 2; ++aligned)
     {
         auto pls = placements(BY, aligned ? ARCH::alignment() : alignof(T), heap);
-        for (const Place& pl : pls)
+        for (size_t pi = 0; pi < pls.size(); ++pi)
         {
+            const Place& pl = pls[pi];
+            const int form = (int)((pi + rng.next()) % 3); // 0: load_aligned/unaligned members, 1: tag forms, 2: xsimd::load_as / store_as
             fill_src(flat, 2 * N, rng, 0);
-            std::string wit = std::string("\"aligned\":") + (aligned ? "true" : "false") + ",\"placement\":\"" + pl.where + "\",\"offset_in_page\":" + std::to_string((uintptr_t)pl.p % 4096) + ",\"memory\":" + hexarr(flat, 2 * N);
+            std::string wit = std::string("\"aligned\":") + (aligned ? "true" : "false") + ",\"form\":" + std::to_string(form) + ",\"placement\":\"" + pl.where + "\",\"offset_in_page\":" + std::to_string((uintptr_t)pl.p % 4096) + ",\"memory\":" + hexarr(flat, 2 * N);
             if (!pl.heap)
                 AR.fill(0x5a);
             memcpy(pl.p, flat, BY);
@@ -371,7 +396,10 @@ static void complexes(Rng& rng, const char* prop)
             st.cell((unsigned)aligned * 4096 + (unsigned)((uintptr_t)pl.p % 4096));
             bool ok = guarded(st, wit, [&]
                               {
-                B b = aligned ? B::load_aligned((const C*)pl.p) : B::load_unaligned((const C*)pl.p);
+                const C* cp = (const C*)pl.p;
+                B b = form == 0 ? (aligned ? B::load_aligned(cp) : B::load_unaligned(cp))
+                    : form == 1 ? (aligned ? B::load(cp, xs::aligned_mode {}) : B::load(cp, xs::unaligned_mode {}))
+                                : (aligned ? xs::load_as<C, ARCH>(cp, xs::aligned_mode {}) : xs::load_as<C, ARCH>(cp, xs::unaligned_mode {}));
                 b.real().store_aligned(re);
                 b.imag().store_aligned(im); });
             if (ok)
@@ -386,8 +414,22 @@ static void complexes(Rng& rng, const char* prop)
             B b(BR::load_aligned(re), BR::load_aligned(im));
             ok = guarded(st, wit, [&]
                          {
-                if (aligned) b.store_aligned((C*)pl.p);
-                else b.store_unaligned((C*)pl.p); });
+                C* cp = (C*)pl.p;
+                if (form == 0)
+                {
+                    if (aligned) b.store_aligned(cp);
+                    else b.store_unaligned(cp);
+                }
+                else if (form == 1)
+                {
+                    if (aligned) b.store(cp, xs::aligned_mode {});
+                    else b.store(cp, xs::unaligned_mode {});
+                }
+                else
+                {
+                    if (aligned) xs::store_as(cp, b, xs::aligned_mode {});
+                    else xs::store_as(cp, b, xs::unaligned_mode {});
+                } });
             if (ok)
             {
                 if (memcmp(pl.p, flat, BY))
@@ -409,6 +451,26 @@ static void complexes(Rng& rng, const char* prop)
         st.evals += 2 * N;
         if (memcmp(re, r2, sizeof re) || memcmp(im, i2, sizeof im))
             viol(st, "split_arrays_mismatch", "{\"re\":" + hexarr(re, N) + ",\"got_re\":" + hexarr(r2, N) + "}");
+        {
+            // the same through the unaligned split-array forms, at an element offset that is not register-aligned
+            alignas(64) T ure[2 * N + 1], uim[2 * N + 1], ur2[2 * N + 1], ui2[2 * N + 1];
+            memcpy(ure + 1, re, sizeof re);
+            memcpy(uim + 1, im, sizeof im);
+            memset(ur2, 0x77, sizeof ur2);
+            memset(ui2, 0x77, sizeof ui2);
+            B bu = B::load_unaligned(ure + 1, uim + 1);
+            bu.store_unaligned(ur2 + 1, ui2 + 1);
+            st.evals += 2 * N;
+            const unsigned char* c0 = (const unsigned char*)ur2;
+            const unsigned char* c1 = (const unsigned char*)(ur2 + 1 + N);
+            const unsigned char* c2 = (const unsigned char*)ui2;
+            const unsigned char* c3 = (const unsigned char*)(ui2 + 1 + N);
+            bool canary = true;
+            for (size_t i = 0; i < sizeof(T); ++i)
+                canary = canary && c0[i] == 0x77 && c1[i] == 0x77 && c2[i] == 0x77 && c3[i] == 0x77;
+            if (memcmp(re, ur2 + 1, sizeof re) || memcmp(im, ui2 + 1, sizeof im) || !canary)
+                viol(st, "split_arrays_unaligned_mismatch", "{\"re\":" + hexarr(re, N) + ",\"got_re\":" + hexarr(ur2 + 1, N) + ",\"neighbours_intact\":" + (canary ? "true" : "false") + "}");
+        }
         for (size_t i = 0; i < N; ++i)
         {
             C c = b.get(i);
@@ -422,32 +484,112 @@ static void complexes(Rng& rng, const char* prop)
     }
 }
 
+// ---------------------------------------------------------------- converting complex load_as / store_as (float <-> double)
+// memory: N elements of std::complex<Mem>; lanes: batch<std::complex<Lane>>
+template <class Mem, class Lane>
+static void complex_converting(Rng& rng, const char* prop)
+{
+    using CM = std::complex<Mem>;
+    using CLn = std::complex<Lane>;
+    using B = xs::batch<CLn, ARCH>;
+    using BR = xs::batch<Lane, ARCH>;
+    constexpr size_t N = B::size;
+    constexpr size_t BY = N * sizeof(CM);
+    OpStat& st = reg(prop, "complex_load_as_store_as_converting", (std::string(tname<Mem>()) + "_mem_" + tname<Lane>() + "_lanes").c_str());
+    if (!st.on)
+        return;
+    alignas(64) Mem flat[2 * N];
+    alignas(64) Lane re[N], im[N];
+    std::vector<void*> heap;
+    for (int aligned = 0; aligned < 2; ++aligned)
+    {
+        auto pls = placements(BY, aligned ? ARCH::alignment() : alignof(Mem), heap);
+        for (const Place& pl : pls)
+        {
+            for (size_t i = 0; i < 2 * N; ++i)
+                flat[i] = (Mem)((int)(rng.next() % 4001) - 2000) / (Mem)8; // exactly representable in float and double
+            std::string wit = std::string("\"aligned\":") + (aligned ? "true" : "false") + ",\"placement\":\"" + pl.where + "\",\"offset_in_page\":" + std::to_string((uintptr_t)pl.p % 4096) + ",\"memory\":" + hexarr(flat, 2 * N);
+            if (!pl.heap)
+                AR.fill(0x5a);
+            memcpy(pl.p, flat, BY);
+            mark_case("complex_load_as", st.type.c_str(), flat, BY);
+            st.evals += 4 * N;
+            st.cell((unsigned)aligned * 4096 + (unsigned)((uintptr_t)pl.p % 4096));
+            bool ok = guarded(st, wit, [&]
+                              {
+                const CM* cp = (const CM*)pl.p;
+                B b = aligned ? xs::load_as<CLn, ARCH>(cp, xs::aligned_mode {}) : xs::load_as<CLn, ARCH>(cp, xs::unaligned_mode {});
+                b.real().store_aligned(re);
+                b.imag().store_aligned(im); });
+            if (ok)
+                for (size_t i = 0; i < N; ++i)
+                    if (re[i] != (Lane)flat[2 * i] || im[i] != (Lane)flat[2 * i + 1])
+                    {
+                        viol(st, "lane_mismatch", "{" + wit + ",\"lane\":" + std::to_string(i) + ",\"re\":" + hexarr(re, N) + ",\"im\":" + hexarr(im, N) + "}");
+                        break;
+                    }
+            for (size_t i = 0; i < N; ++i)
+            {
+                re[i] = (Lane)flat[2 * i];
+                im[i] = (Lane)flat[2 * i + 1];
+            }
+            if (!pl.heap)
+                AR.fill(0xa5);
+            else
+                memset(pl.p, 0xa5, BY);
+            B b(BR::load_aligned(re), BR::load_aligned(im));
+            mark_case("complex_store_as", st.type.c_str(), flat, BY);
+            ok = guarded(st, wit, [&]
+                         {
+                CM* cp = (CM*)pl.p;
+                if (aligned) xs::store_as(cp, b, xs::aligned_mode {});
+                else xs::store_as(cp, b, xs::unaligned_mode {}); });
+            if (ok)
+            {
+                if (memcmp(pl.p, flat, BY))
+                    viol(st, "bytes_mismatch", "{" + wit + "}");
+                if ((!pl.heap && AR.stray(pl.p, BY, 0xa5)) || (pl.heap && heap_overrun(pl.p, BY)))
+                    viol(st, "byte_outside_range_modified", "{" + wit + "}");
+            }
+        }
+    }
+    for (void* h : heap)
+        free(h);
+}
+
 // ---------------------------------------------------------------- gather / scatter
-template <class T>
+// IT: index element type (signed or unsigned, same width as T).  With a signed index type the base pointer is also
+// placed in the middle of the table, so that half of the indices are negative.
+template <class T, class IT = xs::as_integer_t<T>>
 static void gather_scatter(Rng& rng)
 {
     using B = xs::batch<T, ARCH>;
-    using IT = xs::as_integer_t<T>;
     using BI = xs::batch<IT, ARCH>;
     constexpr size_t N = B::size;
-    static OpStat& sg = reg("C04", "gather", tname<T>());
-    static OpStat& sc = reg("C04", "scatter", tname<T>());
+    constexpr bool SIGNED_IDX = std::is_signed<IT>::value;
+    static OpStat& sg = reg("C04", SIGNED_IDX ? "gather" : "gather_unsigned_index", tname<T>());
+    static OpStat& sc = reg("C04", SIGNED_IDX ? "scatter" : "scatter_unsigned_index", tname<T>());
     if (!sg.on && !sc.on)
         return;
     constexpr size_t M = N + 37;
     alignas(64) T loc[M], src[N], o[N];
     alignas(64) IT idx[N];
-    for (int where = 0; where < 2; ++where)
+    size_t kk[N]; // element of the table addressed by lane i
+    for (int where = 0; where < (SIGNED_IDX ? 4 : 2); ++where)
         for (int pattern = 0; pattern < 6; ++pattern)
         {
-            T* tab = where ? (T*)(AR.hi() - M * sizeof(T)) : (T*)AR.lo();
+            T* tab = (where & 1) ? (T*)(AR.hi() - M * sizeof(T)) : (T*)AR.lo();
+            const long boff = (where & 2) ? (long)(M / 2) : 0; // base pointer = tab + boff, index = element - boff
+            T* base = tab + boff;
             fill_src(loc, M, rng, 0);
             fill_src(src, N, rng, 0);
             for (size_t i = 0; i < N; ++i)
-                idx[i] = pattern == 0 ? (IT)(rng.next() % M) : pattern == 1 ? (IT)(M - 1) : pattern == 2 ? (IT)0 : pattern == 3 ? (IT)((i * 7 + 3) % M)
+                kk[i] = pattern == 0 ? (IT)(rng.next() % M) : pattern == 1 ? (IT)(M - 1) : pattern == 2 ? (IT)0 : pattern == 3 ? (IT)((i * 7 + 3) % M)
                     : pattern == 4                                                                                              ? (IT)(M - 1 - i)
                                                                                                                                 : (IT)(i == 0 ? M - 1 : (i == N - 1 ? 0 : rng.next() % M));
-            std::string wit = std::string("\"table\":\"") + (where ? "flush_upper_guard" : "flush_lower_guard") + "\",\"index\":" + hexarr(idx, N);
+            for (size_t i = 0; i < N; ++i)
+                idx[i] = (IT)((long)kk[i] - boff);
+            std::string wit = std::string("\"table\":\"") + ((where & 1) ? "flush_upper_guard" : "flush_lower_guard") + "\",\"base_offset_elements\":" + std::to_string(boff) + ",\"index\":" + hexarr(idx, N);
             if (sg.on)
             {
                 AR.fill(0x5a);
@@ -456,10 +598,10 @@ static void gather_scatter(Rng& rng)
                 sg.evals += N;
                 sg.cell((unsigned)(where * 8 + pattern));
                 bool ok = guarded(sg, wit, [&]
-                                  { B::gather(tab, BI::load_aligned(idx)).store_aligned(o); });
+                                  { B::gather(base, BI::load_aligned(idx)).store_aligned(o); });
                 if (ok)
                     for (size_t i = 0; i < N; ++i)
-                        if (!same_bits(o[i], loc[(size_t)idx[i]]))
+                        if (!same_bits(o[i], loc[kk[i]]))
                         {
                             viol(sg, "lane_mismatch", "{" + wit + ",\"lane\":" + std::to_string(i) + "}");
                             break;
@@ -471,7 +613,7 @@ static void gather_scatter(Rng& rng)
                 bool distinct = true;
                 for (size_t i = 0; i < N; ++i)
                     for (size_t j = 0; j < i; ++j)
-                        if (idx[i] == idx[j])
+                        if (kk[i] == kk[j])
                             distinct = false;
                 if (!distinct)
                     continue;
@@ -481,7 +623,7 @@ static void gather_scatter(Rng& rng)
                 sc.cell((unsigned)(where * 8 + pattern));
                 B v = B::load_aligned(src);
                 bool ok = guarded(sc, wit, [&]
-                                  { v.scatter(tab, BI::load_aligned(idx)); });
+                                  { v.scatter(base, BI::load_aligned(idx)); });
                 if (ok)
                 {
                     T canary;
@@ -490,7 +632,7 @@ static void gather_scatter(Rng& rng)
                     {
                         bool hit = false;
                         for (size_t i = 0; i < N; ++i)
-                            if ((size_t)idx[i] == k)
+                            if (kk[i] == k)
                             {
                                 hit = true;
                                 if (!same_bits(tab[k], src[i]))
@@ -692,6 +834,10 @@ void vh::unit_main()
             gather_scatter<uint64_t>(rng);
             gather_scatter<float>(rng);
             gather_scatter<double>(rng);
+            gather_scatter<int32_t, uint32_t>(rng);
+            gather_scatter<float, uint32_t>(rng);
+            gather_scatter<double, uint64_t>(rng);
+            gather_scatter<uint64_t, uint64_t>(rng);
             gather_scatter_convert<float, double>(rng);
             gather_scatter_convert<int32_t, double>(rng);
             gather_scatter_convert<double, float>(rng);
@@ -706,7 +852,18 @@ void vh::unit_main()
             converting<int64_t, double>(rng);
             converting<uint8_t, int8_t>(rng);
             converting<int16_t, uint16_t>(rng);
+            // memory element narrower / wider than the lane
+            converting<float, double>(rng);
+            converting<double, float>(rng);
+            converting<int8_t, int32_t>(rng);
+            converting<int32_t, int8_t>(rng);
+            converting<uint16_t, float>(rng);
+            converting<double, int16_t>(rng);
+            converting<uint8_t, uint64_t>(rng);
+            converting<int64_t, int16_t>(rng);
         }
+        complex_converting<float, double>(rng, c16 ? "C16" : "C04");
+        complex_converting<double, float>(rng, c16 ? "C16" : "C04");
         complexes<float>(rng, c16 ? "C16" : "C04");
         complexes<double>(rng, c16 ? "C16" : "C04");
     }
